@@ -43,7 +43,7 @@ func init() {
 		"Decides: Do cannot block (R14); the answer path forwards at most one response and always closes `done` exactly once (R20,R40); only declared result names / data outputs reach instance data (R27); the error-mode switch is exhaustive, the retry branch steps the counter on every path back to the select, skip falls through to the flow handling and exit returns (R6,R40).",
 		"'first Do wins' as a value fact, retry count arithmetic.")
 	prop("C09", "Trace stream total order",
-		[]string{"R7", "R8", "R9", "R37"}, nil,
+		[]string{"R7", "R8", "R9", "R37", "R63"}, nil,
 		"Decides: single broadcaster, sequential, non-dropping delivery to every subscriber, subscriber list confined to it, one select serving subscribe/unsubscribe/trace/terminate, Unsubscribe drains while requesting, relay forwards sequentially (R37); announce-before-start, terminal-last, leave/visit bracketing in the token goroutine (R7,R8,R9).",
 		"absence of deadlock in general (Subscribe after termination blocks), per-run order facts.")
 	prop("C10", "Boundary events",
@@ -59,35 +59,35 @@ func init() {
 		"Decides: the completion signal the parent waits for can reach it (trace route, R35); the parent is resumed only after that signal and once (R2,R3); the inner monitor and the forwarding subscription precede the inner start (R11); the sub-process supports exactly the node kinds of a process (R36); inner tokens are counted (R1).",
 		"equivalence with the inlined content, re-entry in a loop.")
 	prop("C13", "Timers",
-		[]string{"R3", "R16", "R20", "R21", "R43"}, nil,
+		[]string{"R3", "R16", "R20", "R21", "R43", "R62", "R65"}, nil,
 		"Decides: the timer callback runs only after a receive from the channel returned by clock.Until/After; one-shot timers call it at most once and then close; the cycle loop tests `repetitions == 0` at its head and decrements on every iteration; after ctx.Done and end-timer cases the function returns (R43,R16); sends never follow close, closes run once (R21,R20); the mock clock sorts before it delivers and removes what it delivered (R43).",
 		"every clause about times: never early for a given clock history, interval spacing, end bound.")
 	prop("C14", "Multiple / parallel-multiple catch events",
-		[]string{"R44"}, nil,
+		[]string{"R44", "R63"}, nil,
 		"Decides: an event that matches no definition changes nothing — every store that mutates satisfier state is control-dependent on a successful MatchesEventInstance; Satisfy is only called from a node's run goroutine or under a mutex (R44).",
 		"the counting arithmetic over histories (the substance of the property).")
 	prop("C15", "XML round trip",
-		[]string{"R29", "R30", "R31"}, nil,
+		[]string{"R29", "R30", "R31", "R71"}, nil,
 		"Decides: id retrievability is structurally complete — every child-element field of every schema struct is reached by its FindBy (R29); writer/reader tables agree: every namespace in a struct tag is mapped, every prefix written has an xmlns declaration, the xsi:type attribute written is the one tested on parse, marshal and unmarshal expression kinds form the same closed set (R30); serialising does not write to the model (R31).",
 		"equality of the re-parsed model, identical engine behaviour.")
 	prop("C16", "Values survive storage; nothing panics",
-		[]string{"R26", "R28", "R45"}, nil,
+		[]string{"R26", "R28", "R45", "R66", "R67"}, nil,
 		"Decides: reflect accessor/kind agreement and nil-type discipline in the value layer (R26b,c); ItemType switches are exhaustive (R28); no mutable package-level state in the value/data layer besides a locked registry, and NewOptions allocates a fresh locator (R45).",
 		"round-trip equality of values (formatting, integer ranges).")
 	prop("C17", "No data race, no panic",
-		[]string{"R20", "R21", "R22", "R23", "R24", "R25", "R26", "Rerr", "R58"}, nil,
+		[]string{"R20", "R21", "R22", "R23", "R24", "R25", "R26", "Rerr", "R58", "R1"}, nil,
 		"Decides: lockset discipline over all mutex-bearing structs (R22), atomic-only consistency (R23), owner-goroutine confinement of node state (R24), closure-shared locals (R25), nil-map / reflect discipline (R26), dropped constructor errors (Rerr, thorough).",
 		"races on memory that has no discipline to infer; 'the outcome is one the sequential semantics allows'.")
 	prop("C18", "Process set",
-		[]string{"R1", "R11", "R14[WaitUntilComplete]", "R20", "R22", "R35", "R46", "R58", "R60"}, nil,
+		[]string{"R1", "R11", "R14[WaitUntilComplete]", "R20", "R22", "R35", "R46", "R58", "R60", "R64", "R62"}, nil,
 		"Decides: `done` closed once (R20); watchers subscribed before the process they watch starts (R11); wait-group pairing (R1); exactly one Send(CeaseProcessSetTrace) site followed by return, one instantiation per throw message (R46); WaitUntilComplete has an escape (R14); the catch registry is locked (R22).",
 		"'returns true exactly when all completed' under all interleavings.")
 	prop("C19", "Builder output",
-		[]string{"R32", "R34"}, nil,
+		[]string{"R32", "R34", "R68", "R69"}, nil,
 		"Decides: the AddActivity type switch covers every activity type the process can store, or rejects it before linking; the node copy is appended only after link filled its incomings; link stores both ends (R32); generated ids do not come from a clock-only source (R34).",
 		"geometry (overlap, waypoints), executability.")
 	prop("C20", "Generated identifiers never collide",
-		[]string{"R23", "R33", "R34"}, nil,
+		[]string{"R23", "R33", "R34", "R68", "R70"}, nil,
 		"Decides: the fallback counter is only accessed atomically (R23); every id stored into flow/process/trace id fields originates from IGenerator.New (or the single pre-generated fork id) and the rolling NewWithTime is never used (R33); id sources are not a pure function of the clock (R34).",
 		"sno's own guarantees, time regressions, snapshot histories.")
 }
